@@ -25,7 +25,7 @@ V = os.path.dirname(os.path.dirname(os.path.abspath(__file__)))
 LEAN = os.path.join(V, 'lean')
 SCRATCH = os.environ.get('LEANMUT_SCRATCH', '/tmp/leanmut')
 FILES = ['Parser.lean', 'Mapper.lean', 'Profile.lean', 'Nav.lean', 'Iham.lean', 'Tree.lean', 'Lookup.lean', 'Session.lean',
-         'Agg.lean', 'Oma.lean', 'Newick.lean', 'Input.lean', 'History.lean', 'Spell.lean', 'WF.lean', 'Realises.lean']
+         'Agg.lean', 'Oma.lean', 'Newick.lean', 'Input.lean', 'History.lean', 'Spell.lean', 'WF.lean', 'Realises.lean', 'Sax.lean']
 ALL = ['C%02d' % i for i in range(1, 21)]
 ORDER = {
     'Parser.lean': ['C03', 'C02', 'C01', 'C20', 'C11', 'C04', 'C19', 'C14'],
@@ -44,6 +44,7 @@ ORDER = {
     'Spell.lean': ['C12'],
     'WF.lean': ['C02', 'C04', 'C03'],
     'Realises.lean': ['C03', 'C02'],
+    'Sax.lean': ['C11', 'C03', 'C20', 'C01'],
 }
 
 RULES = [
